@@ -59,3 +59,5 @@ RC.append(("np.select of 0-d choices with mixed real/complex members: the re-imp
 RC.append(("np.diff with n >= 2 along an axis shorter than n+1 (NumPy returns an empty array): the VJP rebuilds a gradient that is longer than the argument",
            [("C01", "diff", "rev", "wrong-shape", "n_gt_dim_minus_1:True"), ("C05", "diff", "rev", "wrong-structure", "n_gt_dim_minus_1:True"),
             ("C09", "diff", "rev", "wrong-shape", "n_gt_dim_minus_1:True")]))
+RC.append(("np.diff of a complex array whose result is empty: the VJP returns real zeros for a complex argument",
+           [("C09", "diff", "rev", "wrong-shape", "arg_cplx:complex")]))
